@@ -166,16 +166,46 @@ def audit(modules, log=print):
 
 
 def run_slice(profile, cases, seed, scratch, extra=(), timeout=1800):
-    """one correspondence slice: harness executes the real code, the model runs the same trace"""
+    """one correspondence slice: harness executes the real code, the model runs the same trace.
+    If the code under test takes the harness process down (a Go panic in a goroutine of the server
+    cannot be recovered), the trace ends with the `intent` line of the request that did it: that
+    step is recorded as a crash and the slice continues with the next case."""
     trace = os.path.join(scratch, "%s_%d.trace" % (profile, seed))
     stats = trace + ".stats"
-    cmd = [os.path.join(BIN, "ordadrive"), "-profile", profile, "-cases", str(cases), "-seed", str(seed),
-           "-out", trace, "-stats", stats] + list(extra)
     env = dict(os.environ, GOMEMLIMIT="4GiB")
-    rc, out = sh(cmd, timeout=timeout, env=env)
-    if rc != 0:
-        return None, None, "harness exited %d: %s" % (rc, out[-2000:])
-    return pair_with_model(trace), (json.load(open(stats)) if os.path.exists(stats) else {}), None
+    start, crashes = 0, 0
+    while True:
+        cmd = [os.path.join(BIN, "ordadrive"), "-profile", profile, "-cases", str(cases), "-seed", str(seed),
+               "-out", trace, "-stats", stats, "-from", str(start)] + (["-append"] if start else []) + list(extra)
+        rc, out = sh(cmd, timeout=timeout, env=env)
+        if rc == 0:
+            break
+        # find the case that crashed
+        last_case, last = None, None
+        with open(trace) as f:
+            for line in f:
+                try:
+                    j = json.loads(line)
+                except Exception:
+                    continue
+                last = j
+                if j.get("k") in ("case", "scase"):
+                    last_case = j.get("id")
+        if last is None or last.get("k") != "intent" or last_case is None or crashes > 50:
+            return None, None, "harness exited %d: %s" % (rc, out[-2000:])
+        crashes += 1
+        crash = dict(last)
+        crash["k"] = crash.pop("of", "sync")
+        crash["obs"] = dict(crash=True, panicMsg=out[-1500:])
+        with open(trace, "a") as f:
+            f.write(json.dumps(crash) + "\n")
+        start = last_case + 1
+        if start >= cases:
+            break
+    st = json.load(open(stats)) if os.path.exists(stats) else {}
+    if crashes:
+        st["process-crash"] = crashes
+    return pair_with_model(trace), st, None
 
 
 def pair_with_model(trace):
